@@ -10,7 +10,7 @@ PROP = {
     "rule": "same case stream as C05 (G-valid programs, corpus snippets, std files, mutants, doc-heavy blocks, seeds, lines within +-3 columns of max_line_width) x LuaFormatConfig; "
             "distinct = FNV of (text, config); non-trivial = first pass changed the input and produced >= 16 bytes; "
             "CLI clause: directories of 3-12 of those inputs with one generated config file, 2 per shard (quick) / 13 per shard (thorough)",
-    "min_nontrivial": {"quick": 8000, "thorough": 300000},
+    "min_nontrivial": {"quick": 3000, "thorough": 100000},
     "max_secs": {"quick": 60, "thorough": 1000},
     "require_clauses": ["a:second-pass-equal", "b:cli-check-after-write", "changed-by-formatting",
                         "family:g-valid", "family:corpus", "family:std-file", "family:doc-heavy", "family:seed", "family:near-width"],
